@@ -342,6 +342,10 @@ def cmd_run(prop, tier):
                     m["evaluations"] += a["evaluations"]
                     m["nontrivial_evaluations"] += a["nontrivial_evaluations"]
                     m["nt"].update(a["nt_hashes"])
+                    for k in ("labels", "excluded_known", "inconclusive"):
+                        a[k] = a.get(k) or {}
+                    a["samples"] = a.get("samples") or []
+                    a["nt_hashes"] = a.get("nt_hashes") or []
                     for k, v in a["labels"].items():
                         m["labels"][k] = m["labels"].get(k, 0) + v
                     for k, v in a["excluded_known"].items():
